@@ -79,6 +79,12 @@ func (b *baseCockpit) remove(t *task.Task) {
 		}
 	}
 
+	// the footer is written for every task, also for one that never started
+	// (skipped by its condition, failing before-hook): no spinner exists then
+	if b.spinner == nil {
+		return
+	}
+
 	var mark = aurora.Green("✔")
 	if t.Errored {
 		mark = aurora.Red("✗")
